@@ -13,6 +13,16 @@ NOTE_R = ("Mode R = IEEE specials over exact reals (no rounding/overflow/signed 
           "with instance axioms. Trusted: z3, the shim's model of NumPy element semantics, the oracles in /verif/spec and the harness. ")
 
 CHECKS = {
+    "C08": dict(
+        text="Bounded symbolic verification: a block of n rules whose degrees are independent symbols in [0,1] (zeros, ties and "
+             "equal-to-threshold inside) is activated by the real RuleBlock.activate under each of the 7 methods with a symbolic rule "
+             "count (integer in [0,n+1]), symbolic thresholds and all 6 comparators; every Python branch including the heap's tuple "
+             "comparisons is explored and per path the triggered flags, activation degrees and fuzzy contributions of every rule must "
+             "equal the declarative selection predicates of the statement (z3 counting formulas); second activation with fresh degrees, "
+             "unloaded/disabled rules, and batch rejection by the vector-incapable methods on every path.",
+        note=NOTE_R + "Blocks of up to 4 rules (3 for Highest/Lowest) quick, 5/4 thorough; larger blocks outside. Disabled rules under the "
+             "counting methods only where the statement's two readings agree.",
+        ref="DESIGN.md §2 C08"),
     "C06": dict(
         text="Bounded symbolic verification: antecedent texts printed from generated expression trees (minimal/full parentheses, "
              "spacing variants) are parsed by the real Rule.create and evaluated by the real Rule.activate_with with symbolic degrees, "
